@@ -103,6 +103,10 @@ CONTRACTS = [
     Contract(F + "::TaskIdentifier.__hash__", returns="int", props=["C20"],
              ensures=[C("hash_of_canonical_form", "result == hash('//' + join('/', Path_parts(self._path)) + ':' + self._name)")]),
 
+    Contract(F + "::TaskIdentifier.path_to_cond_file", params={"project_root": "Opt[Val[Path]]"}, returns="Val[Path]", extern=True,
+             ensures=["implies(project_root is not None, IsUnder(result, some(project_root)))"],
+             trusted_reason="pathlib.Path(project_root, self._path, 'COND'): a path below the project root"),
+
     Contract("filename.py::task_output_dir", params={"task_identifier": "TaskIdentifier", "version": "Opt[Version]"},
              returns="str", props=["C20", "C08", "C13"],
              ensures=[C("unversioned", "implies(version is None, result == task_identifier._name + '.task')", "C20"),
